@@ -14,7 +14,7 @@ from fractions import Fraction
 from engine import term as T, agg, build, vg, poly as P, polycheck as PC
 from engine.agg import ELEM, TU
 from engine.report import HOLDS, VIOLATED, UNDECIDED
-from .common import Analysed, fn_where, joint
+from .common import Analysed, fn_where, joint, narrowing
 from .c05 import Sym, matmul, ONE
 
 def gen(t):
@@ -231,6 +231,7 @@ def main(rep, ws, tier):
             st = [o['status'] for o in rep.obs if o['id'] == oid and o['rule'] == 'R06.adj']
             if st:
                 rep.ob(oid + '#affine', 'R06.affine', st[0], 'affine fast path and general path are both exact inverses on their own domains; the inverse is unique, so they agree where both apply', nontrivial=False)
+    narrowing(rep, ws, [gen('d')], 'R06.prec')
     rep.floor('inverse functions', sum(1 for o in rep.obs if o['rule'] == 'R06.adj'), 5 * len(types))
     rep.assumptions += ['exact real arithmetic (D-poly)', 'a leaf\'s path equalities (x[i][n] == 0 ...) are used as substitutions for that leaf']
     rep.undecided_clauses += ['error bound in terms of cond(M) x epsilon', 'absence of inf/NaN below cond 1/eps^2', 'pivot choice quality (tmp > pivotsize) and the numeric thresholds of the overflow guard']
